@@ -151,6 +151,7 @@ def gen_project(rnd):
         elif host == "staticmethod":
             lib += ["    @staticmethod", f"    def target({sig_text(sig)}):", body_text(sig, "target", 8), ""]
         lib += ["    def other(self, a, b=1):", "        return ('other', a, b)", ""]
+        lib += ["class Holder:", "    def __init__(self):", "        self.box = Box(6)", ""]
     files = {"lib.py": "\n".join(lib) + "\n"}
     shapes = set()
     allow = (["star"] if rnd.random() < 0.15 else []) + (["dstar"] if rnd.random() < 0.1 else [])
@@ -164,12 +165,13 @@ def gen_project(rnd):
             lines.append("import lib as L")
             mod = "L."
         else:
-            lines.append("from lib import " + ("target, other" if host == "function" else "Box"))
+            lines.append("from lib import " + ("target, other" if host == "function" else "Box, Holder"))
             mod = ""
         lines.append("")
         if host != "function" and host != "constructor":
             lines.append(f"box = {mod}Box(3)")
             lines.append(f"spare = {mod}Box(4)")
+            lines.append(f"holder = {mod}Holder()")
             lines.append("flag = 1")
         for k in range(rnd.randint(3, 5)):
             args, shape = gen_call_args(rnd, sig, allow)
@@ -187,7 +189,7 @@ def gen_project(rnd):
                 else:
                     # receivers that are expressions: the rewritten call must keep them intact
                     recv = rnd.choice(["box"] * 6 + ["(box or spare)", "(box if flag else spare)", "(spare if not flag else box)",
-                                                      f"{mod}Box(5)"])
+                                                      f"{mod}Box(5)", "holder.box"])
                     if recv != "box":
                         shapes.add("receiver-is-an-expression")
                     call = f"{recv}.target({args})"
